@@ -516,6 +516,9 @@ func TestPropIDTransformer(t *testing.T) {
 			rapid.SampledFrom([]string{"42", "a", "$x", "$", "a$b", "~", "id", "{}", "\\", "\"q\""}),
 			rapid.StringOfN(rapid.RuneFrom(validPartRunes), 1, 8, -1),
 		).Draw(t, "id")
+		if rapid.IntRange(0, 9).Draw(t, "idLikeTag") == 0 {
+			id = "$" + tag // an id spelled like the placeholder itself
+		}
 		if !refmux.ValidPart(id) {
 			t.Fatalf("generator produced an invalid part %q", id)
 		}
